@@ -455,6 +455,26 @@ func GenIngressProgram(t *rapid.T, prof IngressProfile) *Program {
 				st.Sched = append(st.Sched, sg.who)
 			}
 		}
+		if prof.Reload && !prof.Rate && rapid.IntRange(0, 2).Draw(t, "race.reload?") == 0 {
+			// a reload (of a file that differs by a comment only) runs alongside
+			// the requests; afterwards the captured requests are sent again
+			b, _ := json.Marshal(cur)
+			var ns SysSpec
+			_ = json.Unmarshal(b, &ns)
+			ns.Comment = "touched during a race " + fmt.Sprint(rapid.IntRange(0, 9).Draw(t, "race.touch"))
+			st.NewSpec = &ns
+			p.Steps = append(p.Steps, st)
+			for k := rapid.IntRange(1, 3).Draw(t, "race.after"); k > 0; k-- {
+				after := *base
+				if after.Sign != nil {
+					sg := *after.Sign
+					sg.Replay = rapid.IntRange(1, 3).Draw(t, "race.after.replay")
+					after.Sign = &sg
+				}
+				p.Steps = append(p.Steps, Step{Op: "ingress", Req: &after})
+			}
+			return p
+		}
 		p.Steps = append(p.Steps, st)
 	}
 	return p
